@@ -238,11 +238,11 @@ def main():
             calls.append(('iter-range', lambda: [x.v for x in t.iterkeys(lo, hi)], False))
             calls += [('contains', lambda: lo in t, False), ('has_key', lambda: bool(t.has_key(lo)), False)]
             if is_set:
-                calls += [('discard', lambda: t.discard(lo), True), ('remove', lambda: t.remove(lo), True),
+                calls += [('discard', lambda: t.discard(lo), True), ('remove', lambda: t.remove(lo), True), ('pop-smallest', lambda: (t.pop(), None)[1], True),
                           ('^=', lambda: (t.__ixor__((lo,)), None)[1], True)]
             else:
                 calls += [('getitem', lambda: (t[lo], None)[1], False), ('get-default', lambda: (t.get(lo, None), None)[1], False),
-                          ('pop-nodefault', lambda: (t.pop(lo), None)[1], True)]
+                          ('pop-nodefault', lambda: (t.pop(lo), None)[1], True), ('popitem', lambda: (t.popitem(), None)[1], True)]
             return calls
         names = [c[0] for c in mk_calls(t0)]
         for ci, name in enumerate(names):
@@ -296,11 +296,12 @@ def main():
                   ('leaf minKey(b)', lambda: b.minKey(a).v, False), ('leaf maxKey(b)', lambda: b.maxKey(z).v, False)]
             if is_set:
                 cs += [('leaf add', lambda: (b.add(a), None)[1], True), ('leaf remove', lambda: b.remove(a), True),
-                       ('leaf discard', lambda: b.discard(a), True)]
+                       ('leaf discard', lambda: b.discard(a), True), ('leaf pop-smallest', lambda: (b.pop(), None)[1], True)]
             else:
                 cs += [('leaf get', lambda: (b.get(a, None), None)[1], False), ('leaf getitem', lambda: (b[a], None)[1], False),
                        ('leaf setitem', lambda: b.__setitem__(a, emb.val(2)), True), ('leaf delitem', lambda: b.__delitem__(a), True),
-                       ('leaf pop', lambda: (b.pop(a, None), None)[1], True), ('leaf setdefault', lambda: (b.setdefault(a, emb.val(2)), None)[1], True)]
+                       ('leaf pop', lambda: (b.pop(a, None), None)[1], True), ('leaf setdefault', lambda: (b.setdefault(a, emb.val(2)), None)[1], True),
+                       ('leaf popitem', lambda: (b.popitem(), None)[1], True)]
             return cs
         if ks_present:
             lnames = [c[0] for c in leaf_calls(mk_leaf())]
